@@ -74,7 +74,7 @@ func goid() int64 {
 
 // NewObserver creates an observer; jitterSeed != 0 adds seeded random yields/sleeps at hook points.
 func NewObserver(jitterSeed int64) *Observer {
-	o := &Observer{maxHold: 2 * time.Second}
+	o := &Observer{maxHold: time.Second}
 	if jitterSeed != 0 {
 		o.jitter = rand.New(rand.NewSource(jitterSeed))
 	}
@@ -82,7 +82,7 @@ func NewObserver(jitterSeed int64) *Observer {
 }
 
 // Hold arranges that the nth (1-based) occurrence of kind satisfying match (nil = any) blocks until Release
-// (or 2 s, to keep a wrong steering script from hanging the run).
+// (or 1 s, to keep a wrong steering script from hanging the run).
 func (o *Observer) Hold(kind string, nth int, match func(*sarama.VerifProdEvent) bool) *Gate {
 	g := &Gate{kind: kind, nth: nth, match: match, Reached: make(chan struct{}), release: make(chan struct{})}
 	o.mu.Lock()
